@@ -58,6 +58,48 @@ TEXT = {
    level_text="Clones of each endpoint are driven from 2-3 threads; the *.sent hold points park a caller between 'request written' and 'reply read' while the controller starts the others; the raw peer withholds and tags replies. Every well-formed order of {start, grant, reply} for 2 callers over all call-kind mixes is run (3 callers sampled) and the oracle checks: no second request while a reply is owed or unconsumed, every caller gets its own tag, all calls complete (else a futex/recvmsg quiescence certificate). A jittered 8-thread stress run and a TSan build of it follow.",
    level_note="Granularity = hold points; a race entirely inside one step is only visible to TSan / the stress oracle.",
  ),
+ "C11": dict(
+   engine="hd", design_ref="DESIGN.md 3.C11",
+   technique="online trace checking against a reference state machine at quiescent points (/proc: worker parked in epoll_wait, eventfd-count, epoll registration list) on a real VhostUserDaemon",
+   level_text="Control-message histories over {SET_FEATURES +-PF, SET_VRING_KICK fd/nofd, SET_VRING_CALL, SET_VRING_ENABLE 0/1, GET_VRING_BASE, RESET_DEVICE, guest kick} on 2 rings are replayed against a fresh real daemon and a reference model written from the statement; after every acknowledged step the monitor waits for quiescence and asserts: active ring => kick consumed, dispatched and descriptor polled; inactive ring => no dispatch and the kick retained. Exhaustive to a bounded depth, random to depth 20, 1-2 workers, Mutex/RwLock rings.",
+   level_note="'model_checking' in the sense of exhaustive bounded exploration of the real implementation against an executable model; quiescence is a /proc certificate, not a sleep. SET_VRING_ENABLE is only issued while PROTOCOL_FEATURES is acknowledged (as the protocol requires).",
+ ),
+ "C12": dict(
+   engine="hd", design_ref="DESIGN.md 3.C12",
+   technique="exhaustive schedule enumeration over instrumented hold points (worker: woken/kick_read/dispatch; control: state/epoll/reply) with logical-stamp safety oracle and /proc lost-wakeup certificate; stress + TSan overlay",
+   level_text="For disable/enable, stop/restart and reset/enable, every merge of the control-path steps of both messages with {raise kick, worker woken, kick read, dispatch} is forced with the hold points on a real daemon. Safety: no handle_event stamped after the peer read the deactivation reply and before reactivation was sent. Progress: the kick is answered by a dispatch while active, else a certificate (ring active, worker parked, eventfd-count, registration) is taken.",
+   level_note="Known finding (open): a worker that had read the kick before the state change still dispatches after the reply (4 signatures in known_findings.json); any other window is reported as a violation. Granularity = hold points.",
+ ),
+ "C13": dict(
+   engine="hd", design_ref="DESIGN.md 3.C13",
+   technique="history monitoring with a reference region list: region-set comparison, two-view byte probes (guest memory <-> memfd pread/pwrite), translation probes through SET_VRING_ADDR sampled on the worker",
+   level_text="Memory-table histories with hostile geometry are acknowledged one by one; the reference follows the acknowledged outcome. After every step: regions handed to update_memory == reference, notifications == successful changes, bytes at region edges agree through both views, one byte outside is inaccessible, SET_VRING_ADDR installs gpa_base+(va-user_base) and rejects addresses outside every current region (incl. removed regions).",
+   level_note="Whether an unordered/overlapping table is accepted is left open; failure of the backend's own update_memory callback is not judged.",
+ ),
+ "C14": dict(
+   engine="hd", design_ref="DESIGN.md 3.C14",
+   technique="state sampling on the worker thread via a custom listener + backend callback log + shared-memory/eventfd observation of add_used/signal",
+   level_text="After each acknowledged SET_VRING_NUM/ADDR/BASE/SET_FEATURES the queue accessors are sampled inside handle_event on the worker and compared with the values sent (sizes, translated addresses, next_avail, next_used = used index in guest memory, EVENT_IDX on every queue); out-of-range indexes must be rejected by every per-ring message without touching any ring; the Backend handed to set_backend_req_fd must inherit reply-ack/shared-object/shmem; add_used+signal must hit the memfd of the latest table and the latest call eventfd only.",
+   level_note="Non-power-of-two SET_VRING_NUM <= max is acknowledged but ignored by the queue: observed, not judged.",
+ ),
+ "C15": dict(
+   engine="hd", design_ref="DESIGN.md 3.C15",
+   technique="shadow-state monitor over shared memory: full read-back of the log file (window + canary pages) after every backend write vs an independent page-set oracle; barrier-synchronised concurrent writers; valgrind overlay",
+   level_text="After an acknowledged SET_LOG_BASE every write the backend performs through the guest-memory interface (Bytes::write incl. partial writes at region ends, volatile slices at inner offsets, write_obj, add_used) is followed by a read of the whole log file and compared byte for byte with a shadow bitmap (bit gpa/4096, LSB first, OR-ed in; canaries and all other bytes unchanged). Too-small logs must be rejected; logging must survive memory-table changes; 2..=16 writers owning bits of the same byte must never lose one.",
+   level_note="Page-aligned regions (as the statement requires). The oracle uses the byte count the write call itself reports.",
+ ),
+ "C16": dict(
+   engine="hd", design_ref="DESIGN.md 3.C16",
+   technique="fault/crash-point enumeration with hold points in the daemon thread and the shutdown path; wait() watched for a /proc deadlock certificate; peer-side EOF observation; thread census",
+   level_text="The daemon thread is parked at each position (idle in header read, before a request, header received/body pending, inside the handler, after the reply, after the peer left, after exit) and 1-3 shutdown requests are interleaved with it in every order of their two steps; wait() must return Ok, the peer must see end-of-stream and a new connection must be served. Without shutdown, a peer close at every byte offset of several requests must make wait() report an error; serve() must treat clean/partial-header disconnects as success and raise every exit event; dropping the daemon must leave no thread.",
+   level_note="wait() after a complete request whose reply fails with EPIPE is not judged (SocketBroken -> Ok by design).",
+ ),
+ "C17": dict(
+   engine="hd", design_ref="DESIGN.md 3.C17",
+   technique="configuration enumeration with a recording backend: (worker tid, thread_id, device_event, size of vrings[device_event]) per kick; custom listener ids probed on fresh daemons",
+   level_text="For every queues-per-thread configuration (exhaustive for small n,t incl. sparse/overlapping masks and bits beyond the queue count) each queue is given a distinct size, started, enabled and kicked; exactly one dispatch must occur, on the first thread whose mask contains the queue, with event id = rank and vrings[event id] = that queue. Custom listener ids across the 64-bit range must be refused or delivered with exactly the registered id.",
+   level_note="Worker identity = tid learnt through a custom listener on the same epoll handler.",
+ ),
  "C18": dict(
    engine="hv", design_ref="DESIGN.md 3.C18",
    technique="end-to-end monitoring through a decoding tap: recording frontend handler, proxy return value, ack bytes decoded by the independent codec; thread-state check for 'awaited / not awaited'",
@@ -69,6 +111,12 @@ TEXT = {
    technique="runtime monitoring with exhaustive configuration enumeration: handler call log and peer byte counter per (feature subset / negotiation order, gated request)",
    level_text="All 2^k subsets of the gating bits on both endpoints x every gated operation, and all negotiation orders to a bounded depth, are executed against the real endpoints; the oracle is the recording handler's call log (backend) and the number of bytes that reached the raw peer (frontend, proxy), with the gate table written from the statement.",
    level_note="Trusted: the gate table. Interpretation: LOG_SHMFD gates the shmfd form of SET_LOG_BASE; device-state transfer is gated on the frontend only (as the statement says).",
+ ),
+ "C19": dict(
+   engine="hk", design_ref="DESIGN.md 3.C19",
+   technique="syscall-boundary monitoring: LD_PRELOAD interposer for ioctl/write/open on a dummy descriptor + expectation table printed by a C program compiled against <linux/vhost.h>",
+   level_text="Every operation of the kernel-vhost, vhost-net, vhost-vsock and vDPA backends is executed for real on a redirected /dev/vhost-* descriptor; the shim captures (fd, request, argument bytes incl. flexible-array payloads) and plays the kernel (0 return, pattern written back). The oracle compares request number/direction/size and the caller's values at the UAPI offsets, the value returned to the caller, IOTLB v1/v2 layout selection and parse round-trip, host-address translation (unchanged for vDPA), and that invalid ring configurations produce zero ioctls.",
+   level_note="Trusted: the system's <linux/vhost.h>; vm-memory's get_host_address as the gpa->host map. Struct padding bytes are not compared. The real kernel is absent: what it would do with the arguments is out of scope.",
  ),
  "C20": dict(
    engine="hv", design_ref="DESIGN.md 3.C20",
